@@ -21,6 +21,7 @@ CONSTANTS
   KeyTest = TRUE
   MaxDel = 100000
   ObsoleteTimeout = 2
+  LockKeys = {}
   ConsumeNet = FALSE
   Ideal = TRUE
   Ghost = TRUE
